@@ -11,7 +11,7 @@ git -C /repo worktree add -q --detach "$WT" HEAD || exit 3
 if [ "$P" = "-" ]; then
   (cd "$WT" && bash -e -s) || { echo "mutation snippet failed"; git -C /repo worktree remove --force "$WT"; exit 3; }
 else
-  git -C "$WT" apply "$P" || { echo "patch does not apply"; git -C /repo worktree remove --force "$WT"; exit 3; }
+  git -C "$WT" apply "$P" 2>/dev/null || git -C "$WT" apply --3way "$P" || { echo "patch does not apply"; git -C /repo worktree remove --force "$WT"; exit 3; }
 fi
 cd /verif
 VERIF_REPO="$WT" VERIF_WORK=/root/scratch/work-$ID VERIF_EVIDENCE_DIR=/root/scratch/ev-$ID VERIF_REPLAYS=/root/scratch/rp-$ID \
